@@ -227,9 +227,9 @@ def run(chk, ctx):
     suppression_rules(pr, Fc, ["Secret"], "[canary]")
     chk.ob("canary.Z5", "fixtures/canary", {"Z5.no-suppressor-field", "Z5.no-forget"} <= set(pr.failed),
            "drop-suppression rules did not fire on the canary fixture: %s" % pr.failed)
-    chk.floor("secret_types", 7)
+    chk.floor("secret_types", 5)
     chk.floor("leaf_holders", 2)
-    chk.floor("fields_examined", 20)
+    chk.floor("fields_examined", 14)
 
 
 def raw_secret(F, f, operand, secret, depth=0, seen=None):
